@@ -18,7 +18,9 @@ func c48(r *core.Run) {
 		"(R2) event emission: the interpreter's and the VM's emit paths hand the event's declared type and its field values to the shared runtime.EmitEventFields, whose host error is turned into a failure (C28.R2); " +
 		"(R3) the compiler's destroy desugaring still inserts the default-destroy-event emission."
 	r.NotDecided = "per-field conversion of payloads; order of events across nested resources at run time."
-	named := func(n string) func(*types.Func) bool { return func(o *types.Func) bool { return o != nil && o.Name() == n } }
+	named := func(n string) func(*types.Func) bool {
+		return func(o *types.Func) bool { return o != nil && o.Name() == n }
+	}
 	if fn := mustFn(r, "R1.destroyevents", "interpreter", "CompositeValue", "Destroy"); fn != nil {
 		ev := core.CallsTo(fn, false, named("DefaultDestroyEvents"))
 		wd := core.CallsTo(fn, false, named("WithResourceDestruction"))
@@ -55,7 +57,9 @@ func c49(r *core.Run) {
 		"(R3) Destroy of a composite iterates all fields, which include attachments, and re-attaches the base to attachment fields before destroying them (C02.R2)."
 	r.NotDecided = "the attachment lifecycle over whole programs (base references inside attachment functions, iteration restrictions)."
 	w := r.W
-	named := func(n string) func(*types.Func) bool { return func(o *types.Func) bool { return o != nil && o.Name() == n } }
+	named := func(n string) func(*types.Func) bool {
+		return func(o *types.Func) bool { return o != nil && o.Name() == n }
+	}
 	if fn := mustFn(r, "R1.attach", "interpreter", "CompositeValue", "SetTypeKey"); fn != nil {
 		n := 0
 		for _, ps := range core.Panics(fn, false) {
@@ -71,7 +75,9 @@ func c49(r *core.Run) {
 		}
 	}
 	if fn := mustFn(r, "R1.attach", "interpreter", "Interpreter", "VisitAttachExpression"); fn != nil {
-		tr := core.CallsTo(fn, true, func(o *types.Func) bool { return o != nil && o.Name() == "Transfer" && core.RecvName(o) == "CompositeValue" })
+		tr := core.CallsTo(fn, true, func(o *types.Func) bool {
+			return o != nil && o.Name() == "Transfer" && core.RecvName(o) == "CompositeValue"
+		})
 		st := core.CallsTo(fn, true, named("SetTypeKey"))
 		ok := len(tr) >= 1 && len(st) == 1
 		if ok {
